@@ -111,8 +111,17 @@ def hsrv_stream(run):
         expect.append(["[fe80::2%eth1] ", "/nofile" + esc])
     cases = [{"i": 0, "cfg": {"fdir": "dir", "tree": [{"p": "a.txt", "c": H("A")}]}, "acts": acts},
              {"i": 1, "cfg": {"fdir": "dir", "tmpl": H("{{.Nope}}"), "tree": []}, "acts": acts[1::6][:6]}]
+    # the served directory has disappeared: whatever else goes wrong with a file request, the notice about it still shows path and query as sent
+    gone_acts = [{"a": "rmroot"}] + [a for a in acts[0::6]]
+    cases.append({"i": 2, "cfg": {"fdir": "dir", "tree": [{"p": "a.txt", "c": H("A")}]}, "acts": gone_acts})
     res, err = vlib.run_overlay_test(binp, "TestVerifHsrv", cases, run.rundir, tag="c10hsrv", env=dict(os.environ, VERIF_TMP=run.rundir))
     bad, n = [], 0
+    if res and len(res) > 2:
+        for a, ex, act in zip((res[2].get("acts") or [])[1:], expect[0::6], gone_acts[1:]):
+            notes = [bytes.fromhex(l["line"]).decode(errors="replace") for l in a.get("och") or [] if not l.get("plain")]
+            n += len(notes)
+            if not any(ex[0] in t for t in notes):
+                bad.append({"action": act, "served_directory": "removed before the request", "notices": notes, "expected_fragment": ex[0]})
     if res:
         for a, ex, act, hs in zip(res[0].get("acts") or [], expect, acts, hostile_of):
             notes = [bytes.fromhex(l["line"]).decode(errors="replace") for l in a.get("och") or [] if not l.get("plain")]
